@@ -490,7 +490,10 @@ def c16_names(rng, thorough):
              "x/../../../escaped2", "a/", "a/.", "..a", "a\\b", "\u00e9", "a b", "a" * 255, "a" * 256, "a//b", "-x", "~", "a\nb", "a/b/c",
              "a/./b", "x/..", "a\u0000b", "\u00e9/\u00e9", "k/.kismet_temp", "a/.hidden",
              # blanks are ordinary bytes of a name: never trimmed, never decoded
-             " ", "  ", " .x", "\t.x", " .kismet_temp", "a ", " a", "a\t", "\na", " /a", "a%2fb", "a%2e", "A", "\u00c9"]
+             " ", "  ", " .x", "\t.x", " .kismet_temp", "a ", " a", "a\t", "\na", " /a", "a%2fb", "a%2e", "A", "\u00c9",
+             # a separator beyond the first component-length boundary is still a separator: the whole name is validated
+             "a" * 254 + "/b", "a" * 255 + "/b", "a" * 255 + "/../../escaped3", "a" * 255 + "/nested", "a" * 256 + "/b",
+             "a" * 255 + "\\b", "a" * 254 + "\u00e9/b"]
     alpha = ["a", ".", "/", "\\", "\u00e9", " "]
     out = list(fixed)
     if thorough:
@@ -530,6 +533,8 @@ def check_C16(work):
                 for nm in names[i:i + per]:
                     o = op(api, nm)
                     o["hash"], o["sec"] = "1", "2"
+                    if len(nm.encode("utf-8", "surrogatepass")) > 40 and "/" in nm:
+                        o["chunks"] = 0    # the actor's 96-byte content header embeds the key: long names that must be rejected carry an empty value
                     prog.append(o)
                 jobs.append(seq_job("C16-%s-%s-%d" % (fname, api, i), "%s:%s" % (fname, api), cache, prog, world=world,
                                     mkdirs=("SRC", "TMP", "outer")))
@@ -564,6 +569,8 @@ def check_C16(work):
             for nm in bad:
                 o = op(api, nm)
                 o["hash"], o["sec"] = "1", "2"
+                if len(nm.encode("utf-8", "surrogatepass")) > 40 and "/" in nm:
+                    o["chunks"] = 0
                 prog.append(o)
             jobs.append(seq_job("C16-%s-%s-maint" % (fname, api), "%s:%s:maintenance-pending" % (fname, api), cache, prog, world=w2,
                                 draw=ALWAYS, mkdirs=("SRC", "TMP", "outer")))
